@@ -324,6 +324,9 @@ func VfC09_Internal() {
 var vfC09Accept bool
 
 func vfC09StubUpdate(c *coordinate.Client, node string, other *coordinate.Coordinate, rtt time.Duration) (*coordinate.Coordinate, error) {
+	// the real Update reads the peer coordinate first (checkCoordinate): its crash-freedom (C20 harnesses) is for a
+	// non-nil peer, so the caller has to hand one over
+	_ = len(other.Vec)
 	if !vfC09Accept {
 		return nil, errors.New("rejected")
 	}
@@ -338,7 +341,7 @@ func vfC09StubUpdate(c *coordinate.Client, node string, other *coordinate.Coordi
 //
 //vf:unwind 24
 //vf:override (*github.com/hashicorp/serf/coordinate.Client).Update = github.com/hashicorp/serf/serf.vfC09StubUpdate
-//vf:bound inputs payload nil | empty | wrong version | undecodable | coordinate with a vector of 0/1/8/9 components; sender from 4 names (empty included); round-trip time any int64
+//vf:bound inputs payload nil | empty | wrong version | undecodable | msgpack nil | coordinate with a vector of 0/1/8/9 components; sender from 4 names (empty included); round-trip time any int64
 //vf:stub coordinate.Client.Update -> arbitrary verdict (crash-freedom of Update: VfC20_* in package coordinate)
 //vf:nonative
 func VfC09_Ping() {
@@ -348,7 +351,11 @@ func VfC09_Ping() {
 	s.coordCache = map[string]*coordinate.Coordinate{}
 	vfC09Accept = vfBool("accept")
 	var payload []byte
-	switch vfChoice("payload", 5) {
+	switch vfChoice("payload", 6) {
+	case 5:
+		// version byte + msgpack nil: decodes without an error
+		payload = []byte{PingVersion, 0xc0}
+		vfQueueDecodeNil()
 	case 0:
 		payload = nil
 	case 1:
